@@ -85,7 +85,8 @@ type swRes struct {
 	t0, t1 time.Duration
 }
 
-var switchCatchUp = &core.Check{Name: "c13/switch-catch-up", Quick: 40, Thorough: 4000, Fn: func(c *core.Ctx) error {
+var switchCatchUp = &core.Check{Name: "c13/switch-catch-up", Quick: 40, Thorough: 4000, Hang: caseHang, Fn: func(c *core.Ctx) error {
+	caseStart()
 	gmp := c.OneOf("gomaxprocs", 1, 2, 16)
 	nconn := 2 + c.Choose("connections-2", 2)
 	best0 := c.Choose("best0", 3) % nconn
@@ -226,14 +227,24 @@ var switchCatchUp = &core.Check{Name: "c13/switch-catch-up", Quick: 40, Thorough
 	for i := range conns {
 		conns[i] = p.VerifNewConnection(i)
 	}
-	p.VerifSetBest(conns[best0])
+	// every call into the pool is bounded (bounded_test.go): with Run active none of them waits for anything
+	// but locks and room in the head channel
+	blocked := func(err error) error {
+		c.Class("pool blocked")
+		return err
+	}
+	if err := setBest(p, conns[best0], fmt.Sprintf("conn%d (fresh pool)", best0)); err != nil {
+		return blocked(err)
+	}
 	ctx, stopRun := context.WithCancel(context.Background())
 	defer stopRun()
 	go p.Run(ctx)
 	t0 := time.Now()
 	since := func() time.Duration { return time.Since(t0) }
 	for i, cn := range conns {
-		cn.SetMasterHead(pool.VerifHead(initial[i]))
+		if err := setHead(cn, fmt.Sprintf("conn%d (fresh pool, Run active)", i), initial[i]); err != nil {
+			return blocked(err)
+		}
 	}
 	time.Sleep(2 * ms)
 
@@ -271,11 +282,15 @@ var switchCatchUp = &core.Check{Name: "c13/switch-catch-up", Quick: 40, Thorough
 		case swPause:
 			time.Sleep(s.d)
 		case swSwitch:
-			p.VerifSetBest(conns[s.conn])
+			if err := setBest(p, conns[s.conn], fmt.Sprintf("(step %d) conn%d", i, s.conn)); err != nil {
+				return blocked(err)
+			}
 			curBest, switchedAt, switchedAtStep = s.conn, since(), i
 		case swPublish:
 			a := since()
-			conns[s.conn].SetMasterHead(pool.VerifHead(s.seq))
+			if err := setHead(conns[s.conn], fmt.Sprintf("conn%d (step %d, Run active)", s.conn, i), s.seq); err != nil {
+				return blocked(err)
+			}
 			if s.oblige {
 				pubT0, pubT1, published = a, since(), true
 				obligingHead, obligingConn = s.seq, s.conn
@@ -293,25 +308,24 @@ var switchCatchUp = &core.Check{Name: "c13/switch-catch-up", Quick: 40, Thorough
 					out <- r
 				}(s.target, s.timeout, out)
 			}
-			for k := 0; p.VerifWaiters() < s.n && len(out) < s.n && k < 20000; k++ {
-				time.Sleep(100 * time.Microsecond)
+			group := out
+			n, err := waitersSeen(p, s.n, func() bool { return len(group) >= s.n })
+			if err != nil {
+				return blocked(err)
 			}
-			if n := p.VerifWaiters(); n != s.n && s.succeed {
+			if n != s.n && s.succeed {
 				// not all registered within 2 s (slow machine): nothing is published for them, no verdict
 				cancelWaiters()
-				wg.Wait()
+				if h := awaitGroup(&wg, callLimit); h != nil {
+					return blocked(blockedError(fmt.Sprintf("step %d: %d x WaitMasterchainSeqno(%d) whose context was cancelled", i, s.n, s.target), h))
+				}
 				c.Class("inconclusive: waiters not registered in 2 s (slow machine)")
 				return nil
 			}
 		case swJoin:
-			done := make(chan struct{})
-			go func() { wg.Wait(); close(done) }()
-			select {
-			case <-done:
-			case <-time.After(open.timeout + 20*time.Second):
-				_, d := verifiablyStuck(func() int64 { return 0 })
+			if h := awaitGroup(&wg, open.timeout+20*time.Second); h != nil {
 				c.Class("pool blocked")
-				return fmt.Errorf("step %d: %d x WaitMasterchainSeqno(%d, %v) did not all return within %v\ngoroutines inside the pool package:\n%s", openAt, open.n, open.target, open.timeout, open.timeout+20*time.Second, d.text)
+				return fmt.Errorf("the pool is blocked: step %d: %d x WaitMasterchainSeqno(%d, %v) not all back %s\ngoroutines inside the pool package:\n%s", openAt, open.n, open.target, open.timeout, h, h.dump.text)
 			}
 			close(out)
 			where := fmt.Sprintf("the best connection was conn%d from the start", curBest)
